@@ -42,3 +42,51 @@ Theorem C16_complement_nested_refuted :
   = [mkI (Some 4) None Plain].
 Proof. exact compl_overlapping_nested_refuted. Qed.
 Print Assumptions C16_complement_nested_refuted.
+
+(* ---------- nested expressions (Proofs/Overlap2.v) ---------- *)
+From CG Require Import Proofs.Assembly Proofs.Assembly2 Proofs.Reverse2 Proofs.Overlap2.
+From Coq Require Import Sorting.Permutation.
+
+(* difference over ANY source of the leaf class (unions, leaf filters, buffers of stored timelines —
+   source events may overlap) with ANY subtractor expressions whose streams are well-formed and
+   sorted (every `good` expression is): the fragment around p carved by all subtractors *)
+Theorem C16_difference_general : forall env s subs p,
+  ov_leaf s = true -> ref_ok env s -> Forall (sub_ok env) subs ->
+  Permutation (overlapping env (Diff s subs) p) (ov_expected env (Diff s subs) p).
+Proof. exact Overlap2.C16_difference_general. Qed.
+Print Assumptions C16_difference_general.
+
+(* complement of any expression in the reverse-exact domain: the entire gap around p, as a list *)
+Theorem C16_complement_general : forall env s p,
+  rgood env (Compl s) -> NEG_INF < p -> p + 1 < POS_INF ->
+  overlapping env (Compl s) p = ov_expected env (Compl s) p.
+Proof. exact Overlap2.C16_complement_general. Qed.
+Print Assumptions C16_complement_general.
+
+(* the oracle the check applies to the implementation holds of the model on the inductive class
+   [ovdom]: leaves, differences (source in the class, any sub_ok subtractors) and complements,
+   nested in any way (e.g. ((~x) - y) - z) *)
+Theorem C16_nested_expected : forall env p e,
+  NEG_INF < p -> p + 1 < POS_INF -> ovdom env p e ->
+  mset_eqb (overlapping env e p) (ov_expected env e p) = true.
+Proof. exact Overlap2.C16_nested_expected. Qed.
+Print Assumptions C16_nested_expected.
+
+(* "for ANY expression" is false: a union / intersection / filter / buffer above a complement or a
+   difference answers from fetch(p, p+1) (known finding KF-OVCLIP-C16; same outputs in /repo) *)
+Theorem C16_union_of_complement_refuted :
+  exists env e p,
+    overlapping env e p = [mkI (Some 10) (Some 11) Plain] /\
+    ov_expected env e p = [mkI (Some 7) None Plain].
+Proof. exact Overlap2.C16_union_of_complement_refuted. Qed.
+Print Assumptions C16_union_of_complement_refuted.
+
+(* merge_within is window-dependent by definition (C17), and overlapping() inherits that: it merges
+   only the events meeting [p, p+1) *)
+Theorem C16_merge_within_refuted :
+  exists env e,
+    fetch env e None None false = [mkI (Some 0) (Some 9) (Rich 1)] /\
+    overlapping env e 0 = [mkI (Some 0) (Some 2) (Rich 1)] /\
+    overlapping env e 4 = [mkI (Some 3) (Some 5) (Rich 2)].
+Proof. exact Overlap2.C16_merge_within_refuted. Qed.
+Print Assumptions C16_merge_within_refuted.
